@@ -26,7 +26,7 @@ func isStringSlice(t types.Type) bool {
 
 // selectivePathParams: []string parameters whose value reaches the path matcher.
 func (p *Prov) selectivePathParams() (map[*ssa.Parameter]bool, *ssa.Function) {
-	matcher := p.c.Fn("reMatchesAnyKeyInPath")
+	matcher := p.pathMatcherFn()
 	out := map[*ssa.Parameter]bool{}
 	if matcher == nil {
 		return out, nil
@@ -324,7 +324,7 @@ func ruleC14(c *Ctx, r *Report) {
 				case kind == "empty-literal":
 					reason := ""
 					for _, e := range exc {
-						if e.Rule == "C14-R2" && e.Construct == construct {
+						if e.Rule == "C14-R2" && (e.Construct == construct || e.Construct == c.roleConstruct(construct)) {
 							reason = e.Reason
 						}
 					}
@@ -376,4 +376,32 @@ func ruleC14(c *Ctx, r *Report) {
 		}
 	}
 	r.Check(okM, "C14-R3", matcher.Name()+":whole-path", c.Pos(matcher.Pos()), detail, detail)
+}
+
+// pathMatcherFn: the selective-mode path matcher, found by role - a package function on
+// the line path that takes a key path ([]string or *[]string) and a *regexp.Regexp and
+// returns a bool.
+func (p *Prov) pathMatcherFn() *ssa.Function {
+	var out *ssa.Function
+	for f := range p.Scope {
+		if f.Signature.Results().Len() != 1 || !isBoolType(f.Signature.Results().At(0).Type()) {
+			continue
+		}
+		hasPath, hasRe := false, false
+		for _, prm := range f.Params {
+			ts := prm.Type().String()
+			if ts == "[]string" || ts == "*[]string" {
+				hasPath = true
+			}
+			if ts == "*regexp.Regexp" {
+				hasRe = true
+			}
+		}
+		if hasPath && hasRe {
+			if out == nil || fnKey(f) < fnKey(out) {
+				out = f
+			}
+		}
+	}
+	return out
 }
